@@ -78,7 +78,7 @@ pub fn run(prop: &str, tier: Tier, seed: u64, replay: Option<&str>) -> i32
             fuzz_target: Some("acc14"),
             prop: "C14",
             engine: &engine,
-            quick_cases: 60_000,
+            quick_cases: 200_000,
             thorough_cases: 2_000_000,
             rule: "cases = lists of steps (one system run each, 1..n accessor calls of one accessor family plus world-level insert/trigger/despawn calls) decoded from proptest byte strings; every (call kind x entity/value state) cell is a class; non-trivial = >= 3 distinct cells with >= 1 reacting and >= 1 non-reacting call; distinct = distinct case hashes".into(),
             assumptions: vec![
